@@ -1,0 +1,34 @@
+//go:build verif
+// +build verif
+
+package statefulset
+
+import (
+	"k8s.io/client-go/util/workqueue"
+
+	apps "github.com/pingcap/advanced-statefulset/client/apis/apps/v1"
+)
+
+// Test-only entry points, compiled only with the `verif` build tag. They add no behaviour: each
+// one forwards to an unexported function of the controller so that an external harness can run a
+// single reconcile, a single worker step, or the revision encoder synchronously.
+
+// VerifSync runs one reconcile of key, exactly as a worker would.
+func (ssc *StatefulSetController) VerifSync(key string) error {
+	return ssc.sync(key)
+}
+
+// VerifProcessNextWorkItem runs one worker step (dequeue, reconcile, requeue or forget).
+func (ssc *StatefulSetController) VerifProcessNextWorkItem() bool {
+	return ssc.processNextWorkItem()
+}
+
+// VerifQueue returns the controller's work queue.
+func (ssc *StatefulSetController) VerifQueue() workqueue.RateLimitingInterface {
+	return ssc.queue
+}
+
+// VerifGetPatch returns the revision data the controller records for set.
+func VerifGetPatch(set *apps.StatefulSet) ([]byte, error) {
+	return getPatch(set)
+}
